@@ -34,7 +34,7 @@ const STACK_BYTES: usize = 8 << 20;
 const HARD_CAP: usize = 4 << 30;
 const ALLOC_FLOOR: usize = 64 << 20;
 const ALLOC_FACTOR: usize = 1024;
-const ITEM_TIMEOUT_MS: u64 = 20_000;
+const ITEM_TIMEOUT_MS: u64 = 60_000;
 const NCOUNTERS: usize = 6; // inputs, accepted, rejected, panics, honest_ok, flagged
 const INLINE_INPUT_LIMIT: usize = 2 << 20;
 
@@ -184,10 +184,29 @@ fn worker(ctx: &Ctx, args: WorkerArgs) -> ! {
             let mut counters = vec![[0u64; NCOUNTERS]; DECODERS.len()];
             // throttle: per (class, decoder, location) how many were reported and the shortest input
             let mut reported: BTreeMap<(String, usize, String), (u64, usize)> = BTreeMap::new();
+            let profile = std::env::var_os("C05_PROFILE").is_some();
+            let mut prof: BTreeMap<String, (u64, f64, f64)> = BTreeMap::new();
+            let (total, step) = (sp.total, args.nworkers);
             args.run(sp.total, ITEM_TIMEOUT_MS, |i| {
+                let t0 = std::time::Instant::now();
                 let inp = sp.input(i);
+                let t1 = std::time::Instant::now();
                 let d = inp.seg.decoder;
                 let v = judge(d, &inp.bytes, inp.seg.honest.as_deref());
+                if profile {
+                    // developer aid only: where does the time go (never influences a verdict)
+                    let e = prof.entry(format!("{} | {}", DECODERS[d].name, inp.seg.label)).or_insert((0, 0.0, 0.0));
+                    e.0 += 1;
+                    e.1 += (t1 - t0).as_secs_f64();
+                    e.2 += t1.elapsed().as_secs_f64();
+                    if i + step >= total || (i / step) % 100_000 == 99_999 {
+                        let mut v: Vec<_> = prof.iter().collect();
+                        v.sort_by(|a, b| (b.1.1 + b.1.2).partial_cmp(&(a.1.1 + a.1.2)).unwrap());
+                        for (k, (n, g, r)) in v.iter().take(40) {
+                            eprintln!("PROFILE {n:8} gen {g:8.3}s run {r:8.3}s  {k}");
+                        }
+                    }
+                }
                 let c = &mut counters[d];
                 c[0] += 1;
                 c[1] += v.accepted as u64;
@@ -284,7 +303,7 @@ fn base_report(ctx: &Ctx) -> Report {
     );
     rep.extra(
         "decoders",
-        Value::Array(DECODERS.iter().map(|d| json!({"name": d.name, "entry_points": d.entry_points})).collect()),
+        Value::Array(DECODERS.iter().map(|d| json!({"name": d.name, "input": if d.text { "text" } else { "bytes" }, "entry_points": d.entry_points})).collect()),
     );
     rep.assume("mithril-stm / mithril-common are built with their default features (no future_snark): SNARK decoders, MerklePath and MerkleTreeCommitment are not compiled and not covered");
     rep.assume("the legacy fixed layouts have no encoder in the code base; honest legacy encodings are written by the harness from the decoders' layout comments (checked: they decode to the original value)");
@@ -349,11 +368,12 @@ fn replay(ctx: &Ctx, path: &Path) -> ! {
 }
 
 pub fn run(ctx: &Ctx) -> ! {
-    if std::env::var_os("C05_DEBUG").is_some() {
-        let _ = std::panic::take_hook();
-    }
     if let Some(args) = WorkerArgs::parse(ctx) {
         worker(ctx, args);
+    }
+    if std::env::var_os("C05_DEBUG").is_some() {
+        // developer aid: show panics of the harness itself (parent process only)
+        let _ = std::panic::take_hook();
     }
     if let Some(path) = &ctx.replay {
         replay(ctx, &path.clone());
@@ -369,11 +389,35 @@ pub fn run(ctx: &Ctx) -> ! {
         rep.finish(ctx);
     }
     let sp: Space = space::build(ctx.tier, &worlds);
+    if std::env::var_os("C05_DEBUG").is_some() {
+        eprintln!("space of {} inputs in {} segments built after {:.2}s", sp.total, sp.segs.len(), ctx.elapsed_s());
+        let mut per: BTreeMap<(usize, String), u64> = BTreeMap::new();
+        for s in &sp.segs {
+            *per.entry((s.decoder, s.label.rsplit_once('[').map(|x| x.1.to_string()).unwrap_or(s.label.clone()))).or_insert(0) += s.count;
+        }
+        for ((d, fam), n) in per {
+            eprintln!("  {:55} {:40} {n}", DECODERS[d].name, fam);
+        }
+    }
+    if std::env::var_os("C05_SPACE_ONLY").is_some() {
+        std::process::exit(0);
+    }
+    // counterexamples of an earlier run are not kept next to those of this run
+    if let Ok(rd) = std::fs::read_dir(ctx.verif_dir.join("replays").join(&ctx.property)) {
+        for e in rd.flatten() {
+            if e.path().extension().and_then(|x| x.to_str()) == Some("json") {
+                let _ = std::fs::remove_file(e.path());
+            }
+        }
+    }
     let nworkers = (ctx.threads() as u64).clamp(1, 32);
     rep.extra("space_size", json!(sp.total));
     rep.extra("segments", json!(sp.segs.len()));
     rep.extra("worker_processes", json!(nworkers));
     let res = isolate::run_sweep(ctx, "main", sp.total, nworkers, 400);
+    if std::env::var_os("C05_DEBUG").is_some() {
+        eprintln!("sweep finished after {:.2}s: {} lines, {} deaths", ctx.elapsed_s(), res.lines.len(), res.deaths.len());
+    }
 
     // counters and non-trivial hashes written by the workers
     let scratch = ctx.scratch();
